@@ -13,6 +13,7 @@
 (* Layer P is the bottom part (ExitOk, Terminates, NoPanicExit, Deterministic): what the           *)
 (* properties C06/C07 demand of ANY implementation. The actions are layer M: what the code does.   *)
 EXTENDS Naturals, Sequences, FiniteSets, TLC
+DP == INSTANCE DataPath
 
 CONSTANTS Files,        \* source files in the tree
           Workers,      \* walker threads
@@ -167,21 +168,7 @@ Spec == Init /\ [][Next]_vars /\ Fairness
 \* What the generation stage makes of the accumulator: per kind, concatenation in arrival order;
 \* reconcile sorts structs, enums and aliases by name with a STABLE sort, consts keep arrival order;
 \* generate_types chains aliases, structs, enums, consts (topsort is stable where there are no references).
-RECURSIVE Flatten(_)
-Flatten(fs) == IF fs = <<>> THEN <<>> ELSE Items[Head(fs)] \o Flatten(Tail(fs))
-
-RECURSIVE InsertSorted(_, _)
-InsertSorted(s, x) ==           \* stable: x goes after every element with name <= x.name
-    IF s = <<>> THEN <<x>>
-    ELSE IF Head(s).name <= x.name THEN <<Head(s)>> \o InsertSorted(Tail(s), x)
-    ELSE <<x>> \o s
-RECURSIVE StableSort(_)
-StableSort(s) == IF s = <<>> THEN <<>> ELSE InsertSorted(StableSort(SubSeq(s, 1, Len(s) - 1)), s[Len(s)])
-
-OfKind(s, k) == SelectSeq(s, LAMBDA x : x.kind = k)
-Output(arrival) == LET all == Flatten(arrival) IN
-    StableSort(OfKind(all, "alias")) \o StableSort(OfKind(all, "struct")) \o StableSort(OfKind(all, "enum"))
-        \o OfKind(all, "const")
+Output(arrival) == DP!OutputOf(Items, arrival)
 
 \* ----------------------------------------------------------------- layer P
 OkFiles == {f \in Files : result[f] \in {"ok", "bad"}}
